@@ -68,10 +68,13 @@ MODELLED = ('ann/content.py Measurements.__init__/get_values, AnnotationGroup.__
             '(number < 1, algorithm type enum, algorithm identification required unless MANUAL -> TypeError, dropped when '
             'MANUAL), MicroscopyBulkSimpleAnnotations.__init__ guards (coordinate type, frame of reference, number of source '
             'images, transfer syntax), lookup returning the group object, accessor histories and the get_measurements value '
-            'matrix (np.vstack(..).T) on that object; from_dataset guards (Dataset type, SOP class, little endian file meta).  '
+            'matrix (np.vstack(..).T) on that object; from_dataset guards (Dataset type, SOP class, little endian file meta); '
+            'lookups on an item sequence that was rearranged after construction (edit_items / run_object_edited / '
+            'run_lookup_edited: items removed, reordered, renumbered, stored twice - the search is by the number CARRIED).  '
             'Not modelled (exercised only): SOPClass header attributes, pydicom I/O.')
 STRATA = ['graphic', 'graphic_bigint', 'graphic_err', 'graphic_nonfinite', 'graphic_counts', 'decode_raw', 'meas', 'meas_raw', 'group_meas', 'group_meas_err',
-          'lookup', 'lookup_err', 'zero_mixed', 'graphic_layout', 'access_order', 'object', 'object_err', 'parse_guard']
+          'lookup', 'lookup_err', 'zero_mixed', 'graphic_layout', 'access_order', 'object', 'object_err', 'parse_guard',
+          'lookup_edited', 'object_edited']
 RULE = ('graphic: 1-4 groups per object, all five graphic types, point counts at and around the limits, 2-D / 3-D with '
         'constant / varying / almost-constant z, dtypes float32 float64 int8..int64 uint8..uint32 and mixed, values from '
         'boundary pools (signed zeros, denormals, max finite, 2^24, dyadic); graphic_err: every guard violated once (count '
@@ -101,7 +104,16 @@ RULE = ('graphic: 1-4 groups per object, all five graphic types, point counts at
         'each constructor guard violated once, alone and together with a missing algorithm identification (TypeError wins); '
         'parse_guard: from_dataset of the instance / a group / a measurement item given a non-Dataset, another SOP class, a big '
         'endian or missing file meta, copy and no copy, then the usual lookups and reads; '
-        'non-trivial = more than one annotation or a rejected input; distinct by case hash')
+        'lookup_edited / object_edited: the item sequence is NOT the constructor\'s - an edit (list of [position taken, new '
+        'number or none]) is applied to the written Annotation Group Sequence before from_dataset (copy / no copy) and '
+        'before annread (edited dataset written again), and to the sequence of the object in memory; every profile of '
+        'EDIT_PROFILES (first / middle / last group removed, some / one kept, reversed, shuffled, rotated, two swapped, sparse '
+        'ascending numbers up to 65535, offset, zero based, numbers permuted in place, a number carried twice, an item stored '
+        'twice, mixed, identity) on 2-7 identification-only groups and on 2-5 whole groups; lookups by every number carried, '
+        'its neighbours, every position 0..n+1, every uid, filters (stored order); on whole objects the coordinates and '
+        'measurements of the group found are read; '
+        'non-trivial = more than one annotation or a rejected input (edited: position and number disagree somewhere); '
+        'distinct by case hash')
 NOT_EXECUTED = ['float16 / float128 coordinate arrays (outside the property quantifier)',
                 '64-bit integer coordinates with |v| > 2^53 (no float storage holds them; the code rounds silently)']
 EXHAUSTIVE = {'quick': False, 'thorough': False}
@@ -751,10 +763,10 @@ OBJ_ERR_MODES = ['number_zero', 'number_neg', 'algtype_bad', 'alg_missing', 'num
                  'alg_missing+graphic_count_comp']
 
 
-def gen_object(rng, tier, mode=None):
+def gen_object(rng, tier, mode=None, ng=None):
     """a whole instance: groups with graphic data + measurements + identification, lookups, then reads"""
     d = rng.choice([2, 3])
-    ng = rng.choice([1, 2, 2, 3, 4])
+    ng = rng.choice([1, 2, 2, 3, 4]) if ng is None else ng
     groups = []
     for i in range(ng):
         g = gen_group(rng, d, dt=rng.choice(['f4', 'f8', 'f4', 'f8', 'i2', 'i4']), nann=rng.choice([1, 2, 3, rng.randint(1, 4)]))
@@ -873,6 +885,141 @@ def gen_parse_guard(rng, tier, variant):
     return c
 
 
+# ---- item sequences that are not the constructor's ------------------------------------------
+# The constructor numbers the items 1, 2, .. in order; a parsed dataset (or an object whose sequence was touched) need
+# not.  An edit is a list of [position of the item taken (0-based), new number or None], applied to the written
+# Annotation Group Sequence BEFORE it is parsed (and to the sequence of the object in memory).
+EDIT_PROFILES = ['drop_first', 'drop_middle', 'drop_last', 'keep_some', 'keep_one', 'reversed', 'shuffled', 'rotated',
+                 'swap_two', 'sparse', 'offset', 'zero_based', 'renumber_perm', 'dup_number', 'dup_item', 'mixed', 'identity']
+
+
+def edit_sequence(rng, ng, profile):
+    ident = [[i, None] for i in range(ng)]
+    if ng < 2 or profile == 'identity':
+        return ident
+    if profile == 'drop_first':
+        return ident[rng.choice([1, 1, 2]) if ng > 2 else 1:]
+    if profile == 'drop_middle':
+        i = rng.randrange(1, ng - 1) if ng > 2 else 0
+        return ident[:i] + ident[i + 1:]
+    if profile == 'drop_last':
+        return ident[:-1]                      # numbers stay 1..n-1 in order: position and number still agree
+    if profile == 'keep_some':
+        while True:
+            keep = sorted(rng.sample(range(ng), rng.randint(1, ng - 1)))
+            if keep != list(range(len(keep))):      # not merely trailing groups removed
+                return [[i, None] for i in keep]
+    if profile == 'keep_one':
+        return [[rng.randrange(1, ng), None]]
+    if profile == 'reversed':
+        return ident[::-1]
+    if profile == 'rotated':
+        k = rng.randrange(1, ng)
+        return ident[k:] + ident[:k]
+    if profile == 'swap_two':
+        i = rng.randrange(ng - 1)
+        e = list(ident)
+        e[i], e[i + 1] = e[i + 1], e[i]
+        return e
+    if profile == 'shuffled':
+        e = list(ident)
+        while e == ident:
+            rng.shuffle(e)
+        return e
+    if profile == 'sparse':
+        # ascending, with gaps; now and then beyond one byte / at the top of the US range
+        k, e = rng.choice([1, 1, 2, 3]), []
+        for i in range(ng):
+            e.append([i, k])
+            k += rng.choice([1, 2, 2, 3, 5, 250, 65000 // ng])
+        if e[-1][1] > 65535 or [x[1] for x in e] == list(range(1, ng + 1)):
+            e[-1][1] = 65535
+        return e
+    if profile == 'offset':
+        off = rng.choice([1, 1, 2, 10])
+        return [[i, i + 1 + off] for i in range(ng)]
+    if profile == 'zero_based':
+        return [[i, i] for i in range(ng)]
+    if profile == 'renumber_perm':
+        nums = list(range(1, ng + 1))
+        while nums == list(range(1, ng + 1)):
+            rng.shuffle(nums)
+        return [[i, k] for i, k in enumerate(nums)]
+    if profile == 'dup_number':
+        i, j = rng.sample(range(ng), 2)
+        e = [[x, None] for x in range(ng)]
+        e[i][1] = j + 1
+        return e
+    if profile == 'dup_item':
+        i = rng.randrange(ng)
+        e = list(ident)
+        e.insert(rng.randrange(ng + 1), [i, rng.choice([None, None, ng + 1])])
+        return e
+    # mixed: some items, in some order, some renumbered
+    keep = rng.sample(range(ng), rng.randint(1, ng))
+    e = [[i, rng.choice([None, None, rng.randint(0, ng + 3)])] for i in keep]
+    return e if e != ident[:len(e)] else e[::-1] if len(e) > 1 else [[ng - 1, 1]]
+
+
+def _edited_numbers(groups, ed):
+    """(index of the group an item was made from, number it carries) in stored order"""
+    return [(p, groups[p]['number'] if r is None else r) for p, r in ed]
+
+
+def _number_probes(ng, items):
+    carried = {k for _, k in items}
+    ks = set(range(0, max(ng, len(items)) + 2)) | carried | {k + 1 for k in carried} | {k - 1 for k in carried if k > 0}
+    return sorted(k for k in ks if 0 <= k <= 65535)
+
+
+def gen_lookup_edited(rng, profile=None, ng=None):
+    c = gen_lookup(rng)
+    ng = ng or rng.choice([2, 3, 3, 4, 5, 6, 7])
+    gs = []
+    for i in range(ng):
+        at = rng.randrange(3)
+        gs.append({'number': i + 1, 'uid': i if rng.random() < 0.93 else rng.randrange(ng),
+                   'label': rng.randrange(3), 'cat': rng.randrange(2), 'typ': rng.randrange(3),
+                   'gt': rng.choice(GT), 'algtype': at,
+                   'alg': None if at == 0 else [rng.randrange(2), rng.randrange(2), rng.randrange(2)]})
+    profile = profile or rng.choice(EDIT_PROFILES)
+    ed = edit_sequence(rng, ng, profile)
+    items = _edited_numbers(gs, ed)
+    ls = ([['number', k] for k in _number_probes(ng, items)] + [['uid', u] for u in range(0, ng + 1)] + [['nothing']] +
+          [l for l in c['lookups'] if l[0] == 'query'][-4:])
+    return {'kind': 'lookup_edited', 'profile': profile, 'groups': gs, 'edit': ed, 'lookups': ls,
+            'copy': rng.random() < 0.5, 'implicit': rng.random() < 0.3}
+
+
+def gen_object_edited(rng, tier, profile=None, ng=None):
+    """a whole instance whose item sequence is rearranged before it is parsed: the group found by number must be the
+    one that CARRIES the number, with its own coordinates and measurements"""
+    c = gen_object(rng, tier, ng=ng or rng.choice([2, 3, 3, 4, 5]))
+    gs = c['groups']
+    ng = len(gs)
+    profile = profile or rng.choice(EDIT_PROFILES)
+    ed = edit_sequence(rng, ng, profile)
+    items = _edited_numbers(gs, ed)
+    old = c['lookups']
+    nmax = max(len(g['gd']) for g in gs)
+
+    def reads(n):
+        ops = []
+        for _ in range(rng.randint(1, 3)):
+            w = rng.choice(['last', 'first', 'mid', 'all', 'all', 'beyond'])
+            ops.append(['all', 0] if w == 'all' else
+                       ['one', {'last': n, 'first': 1, 'mid': rng.randint(1, n), 'beyond': n + 1}[w], 0])
+        return ops, [None] + sorted({rng.randrange(4)})
+    ls = []
+    for k in _number_probes(ng, items):
+        hit = [p for p, kk in items if kk == k]
+        ls.append(['number', k, *reads(len(gs[hit[0]]['gd']) if len(hit) == 1 else nmax)])
+    for u in range(0, ng + 1):
+        ls.append(['uid', u, *reads(nmax)])
+    ls += [l for l in old if l[0] == 'query'][-2:]
+    return dict(c, kind='object_edited', profile=profile, edit=ed, lookups=ls, copy=rng.random() < 0.5)
+
+
 def gen_cases(rng, tier):
     import itertools
     n = {'quick': 1, 'thorough': 16, 'search': 8}[tier]
@@ -980,6 +1127,16 @@ def gen_cases(rng, tier):
     for variant in PARSE_VARIANTS:
         for _ in range(2 * n):
             cases.append(gen_parse_guard(rng, tier, variant))
+    # rearranged item sequences: every profile on identification-only instances (cheap, up to 7 groups) and on whole
+    # objects (the coordinates / measurements of the group found are read), then random ones
+    for profile in EDIT_PROFILES:
+        cases.append(gen_lookup_edited(rng, profile, ng=5 if profile in ('drop_first', 'drop_middle', 'shuffled') else None))
+        cases.append(gen_lookup_edited(rng, profile))
+        cases.append(gen_object_edited(rng, tier, profile))
+    for _ in range(18 * n):
+        cases.append(gen_lookup_edited(rng))
+    for _ in range(4 * n):
+        cases.append(gen_object_edited(rng, tier))
     rng.shuffle(cases)          # spread the large cases over the coqc shards
     return cases
 
@@ -1639,6 +1796,93 @@ def _run_parse_guard(c):
     return res
 
 
+def _edit_sequence_of(ds, ed):
+    """rearrange the items of the Annotation Group Sequence of a dataset (pydicom Dataset or highdicom object) in place"""
+    import copy as _copy
+    items = list(ds.AnnotationGroupSequence)
+    uses = {}
+    for p, _ in ed:
+        uses[p] = uses.get(p, 0) + 1
+    # an item stored twice: the second one is a copy taken before anything is renumbered
+    spare = {p: [_copy.deepcopy(items[p]) for _ in range(k - 1)] for p, k in uses.items() if k > 1}
+    seen, new = set(), []
+    for p, r in ed:
+        it = spare[p].pop() if p in seen else items[p]
+        seen.add(p)
+        if r is not None:
+            it.AnnotationGroupNumber = r
+        new.append(it)
+    ds.AnnotationGroupSequence = new
+    return ds
+
+
+def _edited_paths(build, ed, copy):
+    """three objects whose item sequence was rearranged: the object in memory, from_dataset of the edited written
+    dataset (copy / no copy), annread of the edited dataset written again"""
+    import pydicom
+    from highdicom.ann import MicroscopyBulkSimpleAnnotations, annread
+    ann = build()
+    b = io.BytesIO()
+    ann.save_as(b)
+    written = b.getvalue()
+    mem = _edit_sequence_of(ann, ed)
+    parsed = MicroscopyBulkSimpleAnnotations.from_dataset(
+        _edit_sequence_of(pydicom.dcmread(io.BytesIO(written)), ed), copy=copy)
+    b2 = io.BytesIO()
+    _edit_sequence_of(pydicom.dcmread(io.BytesIO(written)), ed).save_as(b2)
+    return [('mem', mem), ('copy', parsed), ('file', annread(io.BytesIO(b2.getvalue())))]
+
+
+def _uid_id(g):
+    return int(str(g.uid).rsplit('.', 1)[1])
+
+
+def _run_lookup_edited(c):
+    def build():
+        groups = [_group(g['number'], g['gt'], _lookup_gd(g['gt']), uid=UID_ROOT + '7.' + str(g['uid']),
+                         label='LBL%d' % g['label'], cat=g['cat'], typ=g['typ'], algtype=ALGT[g['algtype']],
+                         alg=g['alg']) for g in c['groups']]
+        return _sop(groups, 2, c.get('implicit', False))
+    paths = catch(lambda: _edited_paths(build, c['edit'], c['copy']))
+    if isinstance(paths, Err):
+        return paths
+    show = lambda g: [int(g.number), _uid_id(g)]
+    out = []
+    for _, obj in paths:
+        res = []
+        for l in c['lookups']:
+            if l[0] == 'number':
+                res.append(catch(lambda: show(obj.get_annotation_group(number=l[1]))))
+            elif l[0] == 'uid':
+                res.append(catch(lambda: show(obj.get_annotation_group(uid=UID_ROOT + '7.' + str(l[1])))))
+            elif l[0] == 'nothing':
+                res.append(catch(lambda: show(obj.get_annotation_group())))
+            else:
+                res.append(catch(lambda: [show(g) for g in obj.get_annotation_groups(**_query_kw(l[1]))]))
+        out.append(res)
+    return out
+
+
+def _run_object_edited(c):
+    paths = catch(lambda: _edited_paths(lambda: _build_object(c), c['edit'], c['copy']))
+    if isinstance(paths, Err):
+        return paths
+    ct = '2D' if c['d'] == 2 else '3D'
+    out = []
+    for pname, obj in paths:
+        res = []
+        for kind, arg, ops, names in c['lookups']:
+            if kind == 'query':
+                res.append(catch(lambda: [_observe_object(g, ct, ops, names, pname == 'mem')
+                                          for g in obj.get_annotation_groups(**_query_kw(arg))]))
+                continue
+            g = catch(lambda: obj.get_annotation_group(number=arg) if kind == 'number' else
+                      obj.get_annotation_group(uid=UID_ROOT + '7.' + str(arg)))
+            res.append(g if isinstance(g, Err) else _observe_object(g, ct, ops, names, pname == 'mem'))
+        out.append(res)
+    return out
+
+
 def run_impl(c):
     import warnings
     import logging
@@ -1667,6 +1911,10 @@ def run_impl(c):
         return _run_object(c)
     if k == 'parse_guard':
         return _run_parse_guard(c)
+    if k == 'lookup_edited':
+        return _run_lookup_edited(c)
+    if k == 'object_edited':
+        return _run_object_edited(c)
     raise ValueError(k)
 
 
@@ -1745,6 +1993,10 @@ def _query_term(q):
     return (f"(mkQ {o('cat')} {o('typ')} {o('label')} {gt} {o('algtype')} {o('name')} {o('family')} {o('version')})")
 
 
+def _edit_term(ed):
+    return '[' + '; '.join(f"({zlit(p)}, {'None' if r is None else '(Some ' + zlit(r) + ')'})" for p, r in ed) + ']'
+
+
 def _object_term(c):
     d, h = c['d'], c['hdr']
     specs = []
@@ -1766,6 +2018,10 @@ def _object_term(c):
     hdr = (f"(mkH {_b(h['ctype'] in ('2D', '3D'))} {_b(h['ctype'] == '3D')} {h['nsrc']} {h['nfor'] if h['nsrc'] else 0} "
            f"{_b(h['ts'] in ('explicit', 'implicit'))})")
     lets = f"let h := {hdr} in let ss := [{'; '.join(specs)}] in let ls := [{'; '.join(ls)}] in "
+    if c['kind'] == 'object_edited':
+        ed = _edit_term(c['edit'])
+        return (f"({lets}match run_object_edited h ss false {ed} ls with VErr e => VErr e "
+                f"| r0 => let r1 := run_object_edited h ss true {ed} ls in VL [r0; r1; r1] end)")
     if c['kind'] == 'parse_guard':
         v = c['variant']
         pin = ('PNotDataset' if 'not_dataset' in v else
@@ -1779,7 +2035,7 @@ def coq_term(c):
     k = c['kind']
     if k == 'access_order':
         return _history_term(c)
-    if k in ('object', 'object_err', 'parse_guard'):
+    if k in ('object', 'object_err', 'parse_guard', 'object_edited'):
         return _object_term(c)
     if k in ('graphic', 'graphic_bigint', 'graphic_layout'):
         n = len(c['groups'])
@@ -1817,7 +2073,7 @@ def coq_term(c):
         ms = '[' + '; '.join(f"({m['name']}, {zl(m['vs'])})" for m in c['ms']) + ']'
         qs = '[' + '; '.join(optz(q) for q in c['queries']) + ']'
         return (f"(match run_group_meas {c['n']} {ms} {qs} with VErr e => VErr e | r => VL [r; r; r] end)")
-    if k in ('lookup', 'lookup_err'):
+    if k in ('lookup', 'lookup_err', 'lookup_edited'):
         gs = []
         for g in c['groups']:
             alg = 'None' if g['alg'] is None else f"(Some ({g['alg'][0]}, {g['alg'][1]}, {g['alg'][2]}))"
@@ -1832,6 +2088,9 @@ def coq_term(c):
                 ls.append('ByNothing')
             else:
                 ls.append(f'(ByQuery {_query_term(l[1])})')
+        if k == 'lookup_edited':
+            return (f"(match run_lookup_edited [{'; '.join(gs)}] {_edit_term(c['edit'])} [{'; '.join(ls)}] with "
+                    f"VErr e => VErr e | r => VL [r; r; r] end)")
         return (f"(match run_lookup [{'; '.join(gs)}] [{'; '.join(ls)}] with VErr e => VErr e "
                 f"| r => VL [r; r; r] end)")
     raise ValueError(k)
@@ -1956,18 +2215,24 @@ def _oracle_access_order(c, out):
 
 
 def _oracle_object(c, out):
-    """independent expectation: which groups a lookup must return, and what must be read on them"""
+    """independent expectation: which groups a lookup must return, and what must be read on them.  The items looked
+    at are the groups in the order given, each carrying its own number - or, when the item sequence was rearranged
+    (c['edit']), the items taken, in the order stored, carrying the number stored: a lookup by number must hand back
+    the item that CARRIES the number (ValueError when none or several do), wherever it is stored."""
     np = _np()
     if isinstance(out, Err):
         return f'valid instance refused: {out}'
     d, gs = c['d'], c['groups']
+    items = [(i, g['number']) for i, g in enumerate(gs)] if 'edit' not in c else \
+        [(p, gs[p]['number'] if r is None else r) for p, r in c['edit']]
+    stored = f" (items stored: {[f'#{k} = group {p + 1} as built' for p, k in items]})" if 'edit' in c else ''
     want_gd, want_ms = [], []
     for g in gs:
         arrs, tgt = _expected_arrays(g, d)
         want_gd.append([_words(a.astype(tgt)) for a in arrs])
         want_ms.append([(m['name'], _canon_meas(m['vs'])) for m in g['ms']])
 
-    def expect_obs(gi, ops, names):
+    def expect_obs(gi, ops, names, number):
         gd, n = want_gd[gi], len(want_gd[gi])
         res = []
         for op in ops:
@@ -1983,26 +2248,69 @@ def _oracle_object(c, out):
         for q in names:
             sel = [m for m in want_ms[gi] if q is None or m[0] == q]
             mats.append([[m[0] for m in sel], [[m[1][i] for m in sel] for i in range(n)]])
-        return [gs[gi]['number'], res, mats]
+        return [number, res, mats]
 
     def visible_alg(g):
         return g['alg'] if g['algtype'] != 0 else None
     for pname, res in zip(('mem', 'copy', 'file'), out):
         for (kind, arg, ops, names), r in zip(c['lookups'], res):
             if kind in ('number', 'uid'):
-                hit = [i for i, g in enumerate(gs) if g[kind] == arg]
-                want = expect_obs(hit[0], ops, names) if len(hit) == 1 else Err('ValueError')
+                hit = [(i, k) for i, k in items if (k if kind == 'number' else gs[i]['uid']) == arg]
+                want = expect_obs(hit[0][0], ops, names, hit[0][1]) if len(hit) == 1 else Err('ValueError')
             else:
                 want = []
-                for i, g in enumerate(gs):
+                for i, k in items:
+                    g = gs[i]
                     ok = all(g[key] == arg[key] for key in ('cat', 'typ', 'label', 'gt', 'algtype') if key in arg)
                     for j, key in enumerate(('name', 'version', 'family')):
                         if key in arg:
                             ok = ok and visible_alg(g) is not None and visible_alg(g)[j] == arg[key]
                     if ok:
-                        want.append(expect_obs(i, ops, names))
+                        want.append(expect_obs(i, ops, names, k))
             if r != want:
-                return f'{pname}: lookup {kind} {arg} then {ops} / measurements {names}: got {str(r)[:300]}, stored {str(want)[:300]}'
+                if 'edit' in c and kind == 'number' and not isinstance(r, Err) and r[0] != arg:
+                    return (f'{pname}: get_annotation_group(number={arg}) handed back the group that carries number '
+                            f'{r[0]}{stored}')
+                if 'edit' in c and kind == 'number' and not isinstance(r, Err) and isinstance(want, Err):
+                    return (f'{pname}: get_annotation_group(number={arg}) found a group although '
+                            f'{len(hit)} items carry that number{stored}')
+                if 'edit' in c and kind == 'number' and isinstance(r, Err) and not isinstance(want, Err):
+                    return f'{pname}: get_annotation_group(number={arg}) raised {r} although one item carries that number{stored}'
+                return (f'{pname}: lookup {kind} {arg} then {ops} / measurements {names}: got {str(r)[:300]}, '
+                        f'stored {str(want)[:300]}{stored}')
+    return None
+
+
+def _oracle_lookup_edited(c, out):
+    """identification only: the items stored are c['edit'] applied to the groups as built; a lookup hands back
+    (number carried, uid) of the one item that carries the number / uid asked for"""
+    if isinstance(out, Err):
+        return f'valid groups refused: {out}'
+    gs = c['groups']
+    items = [(gs[p], gs[p]['number'] if r is None else r) for p, r in c['edit']]
+    stored = f"items stored (number, uid): {[(k, g['uid']) for g, k in items]}"
+    for pname, res in zip(('mem', 'copy' if c['copy'] else 'nocopy', 'file'), out):
+        for l, r in zip(c['lookups'], res):
+            if l[0] in ('number', 'uid'):
+                hit = [[k, g['uid']] for g, k in items if (k if l[0] == 'number' else g['uid']) == l[1]]
+                want = hit[0] if len(hit) == 1 else Err('ValueError')
+            elif l[0] == 'nothing':
+                want = Err('TypeError')
+            else:
+                q = l[1]
+                want = []
+                for g, k in items:
+                    ok = all(g[key] == q[key] for key in ('cat', 'typ', 'label', 'gt', 'algtype') if key in q)
+                    for j, key in enumerate(('name', 'version', 'family')):
+                        if key in q:
+                            ok = ok and g['alg'] is not None and g['alg'][j] == q[key]
+                    if ok:
+                        want.append([k, g['uid']])
+            if r != want:
+                if l[0] == 'number' and not isinstance(r, Err):
+                    return (f'{pname}: get_annotation_group(number={l[1]}) handed back the group carrying number {r[0]} '
+                            f'(uid {r[1]}), expected {want}; {stored}')
+                return f'{pname}: lookup {l} returned {r}, expected {want}; {stored}'
     return None
 
 
@@ -2102,8 +2410,10 @@ def oracle(c, out):
         return _oracle_graphic(c, out)
     if k == 'access_order':
         return _oracle_access_order(c, out)
-    if k == 'object':
+    if k in ('object', 'object_edited'):
         return _oracle_object(c, out)
+    if k == 'lookup_edited':
+        return _oracle_lookup_edited(c, out)
     if k == 'parse_guard':
         v = c['variant']
         if 'not_dataset' in v:
@@ -2207,6 +2517,9 @@ def nontrivial(c, out):
         return len(c['group']['gd']) > 1
     if k == 'object':
         return len(c['groups']) > 1 or len(c['groups'][0]['gd']) > 1
+    if k in ('lookup_edited', 'object_edited'):
+        # position and number disagree somewhere
+        return any(i + 1 != (c['groups'][p]['number'] if r is None else r) for i, (p, r) in enumerate(c['edit']))
     return True
 
 
@@ -2275,7 +2588,14 @@ def shrink(c):
         for i in range(len(c['ms'])):
             if len(c['ms']) > 1:
                 yield dict(c, ms=c['ms'][:i] + c['ms'][i + 1:])
-    elif k in ('object', 'object_err', 'parse_guard'):
+    elif k in ('object', 'object_err', 'parse_guard', 'object_edited'):
+        if k == 'object_edited':
+            ed = c['edit']
+            for i in range(len(ed)):
+                if len(ed) > 1:
+                    yield dict(c, edit=ed[:i] + ed[i + 1:])
+            if all(p < len(c['groups']) - 1 for p, _ in ed) and len(c['groups']) > 1:
+                yield dict(c, groups=c['groups'][:-1])
         ls = c['lookups']
         if len(ls) > 1:
             for i in range(len(ls)):
@@ -2291,7 +2611,18 @@ def shrink(c):
         for gi, g in enumerate(gs):
             if g['ms']:
                 yield dict(c, groups=gs[:gi] + [dict(g, ms=g['ms'][:-1])] + gs[gi + 1:])
-    elif k == 'lookup':
+    elif k in ('lookup', 'lookup_edited'):
+        if k == 'lookup_edited':
+            ed = c['edit']
+            for i in range(len(ed)):
+                if len(ed) > 1:
+                    yield dict(c, edit=ed[:i] + ed[i + 1:])
+            if all(p < len(c['groups']) - 1 for p, _ in ed) and len(c['groups']) > 1:
+                yield dict(c, groups=c['groups'][:-1])
+            for i in range(len(c['lookups'])):
+                if len(c['lookups']) > 1:
+                    yield dict(c, lookups=c['lookups'][:i] + c['lookups'][i + 1:])
+            return
         ls = c['lookups']
         if len(ls) > 1:
             for i in range(len(ls)):
